@@ -195,7 +195,8 @@ theorem cubicCurve_NATURAL_ok_of_unique (a d : K) (mid : List K) (tol rt atl : K
     (huniq : NaturalUnique a d mid)
     (x : Mat K) (m : ℕ) (hxs : x.size = mid.length + 2 ∧ ∀ i, i < mid.length + 2 → (x.getD i #[]).size = m)
     (tg : Option (Mat K)) :
-    ∃ cp, cubicCurve bNATURAL tol rt atl x (a :: (mid ++ [d])) tg = .ok (natBasis a d mid, cp) := by
+    ∃ cp, cubicCurve bNATURAL tol rt atl x (a :: (mid ++ [d])) tg = .ok (natBasis a d mid, cp) ∧
+      cp.size = mid.length + 4 ∧ ∀ i, i < mid.length + 4 → (cp.getD i #[]).size = m := by
   set t := a :: (mid ++ [d]) with ht
   set b := natBasis a d mid with hb
   have hv : b.Valid := natBasis_valid a d mid tol hgap htol
@@ -308,7 +309,8 @@ theorem cubicCurve_NATURAL_ok_of_unique (a d : K) (mid : List K) (tol rt atl : K
       rw [this]; rfl
   obtain ⟨L, hL⟩ := left_inverse_of_injective_c14 (mid.length + 4) (fun i j => N.get i j) hinj
   obtain ⟨cp, hcp⟩ := solveC_complete N rhs (mid.length + 4) m hshapeN hshapeR L hL
-  refine ⟨cp, ?_⟩
+  obtain ⟨sh1, sh2⟩ := solveC_shape (mid.length + 4) m hshapeN hshapeR hcp
+  refine ⟨cp, ?_, sh1, sh2⟩
   unfold cubicCurve
   simp only [hsys, bind, Except.bind, pure, Except.pure]
   rw [if_neg (by rw [hNsize, hnf, hshapeR.1]; simp), hcp]
